@@ -12,8 +12,8 @@ Obs == JsonDeserialize(IOEnv.VERIF_OBS)
 VARIABLES i, v
 
 Results(n) == LET e == Obs[n].e
-                  insts == InstSeq(e)
-              IN  [k \in 1..Len(insts) |-> EvalOn(e, insts[k])]
+                  insts == Force(InstSeq(e))
+              IN  Force([k \in 1..Len(insts) |-> EvalOn(e, insts[k])])
 
 Min(S) == CHOOSE k \in S : \A j \in S : k <= j
 
